@@ -13,19 +13,29 @@ Definition end_line (p : pos) : Z := fst (snd p).
 (** `pos.start.line == line and pos.end.line == line` *)
 Definition match_line (p : pos) (line : Z) : bool := Z.eqb (start_line p) line && Z.eqb (end_line p) line.
 
-(** `if self.line_exclude: return not any(...)`, `if self.line_include: return any(...)`, `return True` *)
-Definition filter_by_path_includes_or_excludes (line_exclude line_include : list Z) (p : pos) : bool :=
-  match line_exclude with
-  | _ :: _ => negb (existsb (match_line p) line_exclude)
-  | [] => match line_include with
-          | _ :: _ => existsb (match_line p) line_include
-          | [] => true
-          end
+(** as written: `if self.line_exclude: return not any(...)`, `if self.line_include: return any(...)`, `return True`;
+    repaired: `if self.line_exclude and any(...): return False`, `if self.line_include: return any(...)`, `return True` *)
+Definition filter_by_path_includes_or_excludes (v : lf_rule) (line_exclude line_include : list Z) (p : pos) : bool :=
+  match v with
+  | ExcludeShadowsInclude =>
+      match line_exclude with
+      | _ :: _ => negb (existsb (match_line p) line_exclude)
+      | [] => match line_include with
+              | _ :: _ => existsb (match_line p) line_include
+              | [] => true
+              end
+      end
+  | ExcludeThenInclude =>
+      match line_exclude with
+      | _ :: _ => if existsb (match_line p) line_exclude then false
+                  else match line_include with _ :: _ => existsb (match_line p) line_include | [] => true end
+      | [] => match line_include with _ :: _ => existsb (match_line p) line_include | [] => true end
+      end
   end.
 
 (** `filter_by_result(node) and filter_by_path_includes_or_excludes(pos)`; the result test is an input here. *)
-Definition node_is_selected (by_result : bool) (line_exclude line_include : list Z) (p : pos) : bool :=
-  by_result && filter_by_path_includes_or_excludes line_exclude line_include p.
+Definition node_is_selected (v : lf_rule) (by_result : bool) (line_exclude line_include : list Z) (p : pos) : bool :=
+  by_result && filter_by_path_includes_or_excludes v line_exclude line_include p.
 
 (** `lineno_for_node` / `report_change`: the change entry carries the start line of the node position. *)
 Definition lineno_for_node (p : pos) : Z := start_line p.
@@ -64,7 +74,7 @@ Definition process_file_lines (form : path_form) (as_passed : str) (relative : o
 
 (** ** A transformer that sends every candidate node through the filter (what `node_is_selected` users do):
     the candidates it rewrites and the change lines it reports. *)
-Definition rewritten (line_exclude line_include : list Z) (candidates : list pos) : list pos :=
-  List.filter (filter_by_path_includes_or_excludes line_exclude line_include) candidates.
-Definition reported (line_exclude line_include : list Z) (candidates : list pos) : list Z :=
-  map report_change (rewritten line_exclude line_include candidates).
+Definition rewritten (v : lf_rule) (line_exclude line_include : list Z) (candidates : list pos) : list pos :=
+  List.filter (filter_by_path_includes_or_excludes v line_exclude line_include) candidates.
+Definition reported (v : lf_rule) (line_exclude line_include : list Z) (candidates : list pos) : list Z :=
+  map report_change (rewritten v line_exclude line_include candidates).
